@@ -56,7 +56,7 @@ theorem pingReply_fits (n : Nat) (r : Bytes) (h : pingReply n = some r) :
     · show _ ≤ 65535; omega
   · cases h
 
-theorem nodeStep_replies_fit (classify : Nat → Kind) (initOk : Bytes → Bool) (other : Bytes → Decoded)
+theorem nodeStep_replies_fit (classify : Nat → PeerGate.MK) (initOk : Bytes → Bool) (other : Bytes → Decoded)
     (g : Gate) (m : Bytes) : ∀ r, Ev.reply r ∈ (nodeStep classify initOk other g m).2 → Fits r := by
   intro r hr
   unfold nodeStep at hr
@@ -81,7 +81,7 @@ theorem nodeStep_replies_fit (classify : Nat → Kind) (initOk : Bytes → Bool)
       · split at hr <;> simp at hr
       · split at hr <;> simp at hr
 
-theorem nodeRun_replies_fit (classify : Nat → Kind) (initOk : Bytes → Bool) (other : Bytes → Decoded) :
+theorem nodeRun_replies_fit (classify : Nat → PeerGate.MK) (initOk : Bytes → Bool) (other : Bytes → Decoded) :
     ∀ (msgs : List Bytes) (g : Gate), ∀ r ∈ repliesOf (nodeRun classify initOk other g msgs), Fits r := by
   intro msgs
   induction msgs with
